@@ -490,9 +490,52 @@ func c14c(c *Ctx) {
 // statusSwitch extracts sentinel -> status from `switch err { case A, B: http.Error(rw, .., code) }`
 // and `if err, ok := err.(*T); ok { rw.WriteHeader(code) }`.
 func statusSwitch(f *Func) map[string]int64 {
+	out := statusSwitchWith(f, false)
+	// the status may be computed by a helper `func(err error) int` and passed to http.Error: the
+	// helper's own sentinel -> returned constant table then is the handler's table
+	info := f.Info()
+	ast.Inspect(f.Body, func(n ast.Node) bool {
+		call, ok := n.(*ast.CallExpr)
+		if !ok || !matchCallee(info, call, Callee{"net/http", "", "Error"}) || len(call.Args) != 3 {
+			return true
+		}
+		hc, ok := ast.Unparen(f.ResolveDeep(call.Args[2]).E).(*ast.CallExpr)
+		if !ok || len(hc.Args) != 1 {
+			return true
+		}
+		fn, ok := calleeObj(info, hc).(*types.Func)
+		if !ok {
+			return true
+		}
+		if g := f.Prog.FuncOf(fn.Origin()); g != nil && g.Body != nil && g.Pkg == f.Pkg {
+			for k, v := range statusSwitchWith(g, true) {
+				if _, dup := out[k]; !dup {
+					out[k] = v
+				}
+			}
+		}
+		return true
+	})
+	return out
+}
+
+// statusSwitchWith extracts the table from f; with returns set, the status of a
+// branch is the constant it returns instead of the one it passes to http.Error.
+func statusSwitchWith(f *Func, returns bool) map[string]int64 {
 	info := f.Info()
 	out := map[string]int64{}
 	codeIn := func(list []ast.Stmt) int64 {
+		if returns {
+			var code int64 = -1
+			for _, st := range list {
+				if r, ok := st.(*ast.ReturnStmt); ok && len(r.Results) == 1 {
+					if v, ok := constInt(info, r.Results[0]); ok {
+						code = v
+					}
+				}
+			}
+			return code
+		}
 		var code int64 = -1
 		for _, st := range list {
 			ast.Inspect(st, func(n ast.Node) bool {
